@@ -78,6 +78,11 @@ CHECKS = {
    text="All 37 indicators on regime streams sized to the configuration's longest window, every step: documented intervals, band orderings, channel containment, SAR side (exact), non-negative dispersion, clv range and finiteness of every value wherever the formula is defined; no conditioning exemption for the flat regimes.",
    note="Pure predicates on outputs, no reference model. Five fix: commits (RSI, MFI, CMO, TrendStrengthIndex, Vidya) removed the violations found.",
    ref="DESIGN.md §5 C12, Appendix A"),
+ "C07": dict(
+   technique="long procedural streams with late checkpoints: definitional comparison on a ring of recent inputs + metamorphic fresh-instance-primed-with-last-window relation",
+   text="3*10^5 (thorough 10^7) step streams with regime changes (volatile, exactly flat, 10^+-k scale jumps, drifts, lattices, sign flips) and plain random walks for all 22 finite-window/selection methods at lengths {1,2,3,5,14,100,254}, the reversal detectors (every step, exact) and 13 finite-memory indicators: selections/positions/signals exact on dense late bands (around multiples of 2^8 and 2^16, every 997th step, last 1000), arithmetic outputs against the from-scratch formula at geometric checkpoints inside K*eps*(n+t)*M_t*g, and agreement of the veteran with a fresh instance primed with the last window.",
+   note="Known findings (listed): t^1.5 drift of the double-accumulator averages (WMA, LinReg, SWMA, HMA) beyond any linear allowance; RSI/CCI residue ratio on an exactly flat window. Streams are a pure function of a small parameter record (the replay file).",
+   ref="DESIGN.md §5 C07, Appendix A"),
 }
 
 PENDING = {
